@@ -702,6 +702,32 @@ func execTraced(t *tracer, re *process.RuntimeEnvironment, procs []*process.Proc
 	}
 	t.releaseAll()
 	close(stopKA)
+	// the rest of the run is free: as in record mode, keep the interpreter from declaring quiescence while hook events keep arriving
+	settle := 300 * time.Millisecond
+	if v, err := strconv.Atoi(os.Getenv("VERIF_SETTLE_MS")); err == nil && v >= 0 {
+		settle = time.Duration(v) * time.Millisecond
+	}
+	t.mu.Lock()
+	t.lastEv = time.Now()
+	t.mu.Unlock()
+	stop2 := make(chan struct{})
+	go func() {
+		for {
+			select {
+			case <-stop2:
+				return
+			default:
+			}
+			t.mu.Lock()
+			recent := !t.quiesce && time.Since(t.lastEv) < settle
+			t.mu.Unlock()
+			if recent {
+				process.VerifKeepAlive(re)
+			}
+			time.Sleep(4 * time.Millisecond)
+		}
+	}()
 	<-done
+	close(stop2)
 	return div, why
 }
